@@ -1,14 +1,23 @@
 package main
 
 import (
+	"context"
+	"fmt"
 	"io/fs"
 	"os"
+	"strings"
 	"time"
+
+	"github.com/Masterminds/semver/v3"
 
 	"github.com/spf13/pflag"
 	"mvdan.cc/sh/v3/syntax"
 
+	task "github.com/go-task/task/v3"
+	"github.com/go-task/task/v3/internal/execext"
 	"github.com/go-task/task/v3/internal/flags"
+	"github.com/go-task/task/v3/taskfile"
+	"github.com/go-task/task/v3/taskfile/ast"
 	zz "github.com/go-task/task/v3/internal/zzsym"
 )
 
@@ -121,3 +130,126 @@ func ZZ_C19_Init() {
 	}
 	zz.Reach("end")
 }
+
+// ---- the whole CLI path: run() with the Taskfile reading and the shell replaced ----------
+
+var (
+	zzTF       *ast.Taskfile
+	zzCommands []string
+)
+
+//gosmt:stub (*github.com/go-task/task/v3.Executor).getRootNode
+func zzGetRootNode(e *task.Executor) (taskfile.Node, error) {
+	e.Dir = "/wd"
+	return nil, nil
+}
+
+//gosmt:stub (*github.com/go-task/task/v3.Executor).readTaskfile
+func zzReadTaskfile(e *task.Executor, node taskfile.Node) error {
+	e.Taskfile = zzTF
+	return nil
+}
+
+//gosmt:stub (*github.com/go-task/task/v3.Executor).setupFuzzyModel
+func zzSetupFuzzyModel(e *task.Executor) {}
+
+//gosmt:stub os.MkdirAll
+func zzMkdirAll(path string, perm os.FileMode) error { return nil }
+
+//gosmt:stub (*github.com/go-task/task/v3.Executor).doVersionChecks
+func zzDoVersionChecks(e *task.Executor) error { return nil }
+
+//gosmt:stub (*github.com/go-task/task/v3.Executor).InterceptInterruptSignals
+func zzIntercept(e *task.Executor) {}
+
+//gosmt:stub github.com/go-task/task/v3/internal/execext.RunCommand
+func zzRunCommand(ctx context.Context, opts *execext.RunCommandOptions) error {
+	zzCommands = append(zzCommands, opts.Command)
+	return nil
+}
+
+//gosmt:stub github.com/go-task/task/v3/internal/execext.ExpandLiteral
+func zzExpandLiteral(s string) (string, error) { return s, nil }
+
+//gosmt:stub os.Environ
+func zzOsEnviron() []string { return []string{"HOME=/h"} }
+
+//gosmt:stub os.LookupEnv
+func zzLookupEnv(k string) (string, bool) { return "", false }
+
+//gosmt:stub os.Getenv
+func zzGetenv(k string) string { return "" }
+
+const zzCLIAlphabet = "a='\"$\\ *{}."
+
+// ZZ_C19_CLI: cmd/task's run() from the parsed command line to the command handed to the
+// shell, for `task show NAME=value -- post...`, with the Taskfile
+//
+//	tasks: {show: {cmds: ["probe {{.CLI_ARGS}}", "probe2 {{.NAME}}", "probe3 {{shellQuote .NAME}} {{q .NAME}} {{.NAME | q}}"]}}
+//
+// installed in place of the file reading (getRootNode/readTaskfile stubs). The executed
+// commands must be "probe " + the separately quoted forwarded arguments joined by blanks and
+// "probe2 " + the text after the first '=' of the assignment, and shellQuote / q (go-task's own
+// template function table, built by executing templater's init from funcs.go) apply the
+// quoting function to exactly that value: no byte of either is interpreted
+// by the variable resolution or the template engine (__tmplsym=1: text reaching the template
+// engine is symbolic). The native replay runs the built binary on the solver's argument
+// vector and compares what printf receives.
+func ZZ_C19_CLI() {
+	npost := 1 + zz.Choose("npost", 2)
+	var post []string
+	for k := 0; k < npost; k++ {
+		post = append(post, zz.Str(fmt.Sprintf("post%d", k), 4, zzCLIAlphabet))
+	}
+	assign := zz.Bool("assignment")
+	val := ""
+	if assign {
+		val = zz.Str("value", 3, zzCLIAlphabet)
+	}
+	zzArgv = []string{"show"}
+	if assign {
+		zzArgv = append(zzArgv, "NAME="+val)
+	}
+	zzDash = len(zzArgv)
+	zzArgv = append(zzArgv, post...)
+	zzTF = &ast.Taskfile{Version: semver.MustParse("3"), Vars: ast.NewVars(), Env: ast.NewVars(), Tasks: ast.NewTasks()}
+	cmds := []*ast.Cmd{{Cmd: "probe {{.CLI_ARGS}}"}, {Cmd: "probe2 {{.NAME}}"}}
+	if assign { // quoting an unset variable is a rendering error
+		cmds = append(cmds, &ast.Cmd{Cmd: "probe3 {{shellQuote .NAME}} {{q .NAME}} {{.NAME | q}}"})
+	}
+	zzTF.Tasks.Set("show", &ast.Task{Task: "show", Location: &ast.Location{Taskfile: "/wd/Taskfile.yml"}, Vars: ast.NewVars(), Env: ast.NewVars(), Cmds: cmds})
+	zzCommands = nil
+	flags.Init = false
+	flags.Silent = true
+	err := run()
+	want := ""
+	for k, a := range post {
+		if k > 0 {
+			want += " "
+		}
+		want += "'" + a + "'"
+	}
+	if assign {
+		q := "'" + val + "'"
+		zz.Assert(strings.Contains(val, "{{") || (err == nil && len(zzCommands) == 3 && zzCommands[2] == "probe3 "+q+" "+q+" "+q), "shellQuote-and-q-pass-the-value-as-one-quoted-word")
+		if len(zzCommands) == 3 {
+			zzCommands = zzCommands[:2]
+		}
+	}
+	ok := err == nil && len(zzCommands) == 2
+	if err != nil {
+		zz.Note("run: " + err.Error())
+	}
+	zz.Note(fmt.Sprintf("commands=%d", len(zzCommands)))
+	zz.Assert(ok && zzCommands[0] == "probe "+want, "forwarded-arguments-reach-the-command-uninterpreted")
+	// A value assigned on the command line is a global variable: like any variable value of a
+	// Taskfile it is itself a template (documented semantics), so only template-free values
+	// are required to arrive unchanged.
+	zz.Assert(ok && (strings.Contains(val, "{{") || zzCommands[1] == "probe2 "+val), "assignment-value-reaches-the-command-split-at-first-equals")
+	if zz.Twin() {
+		zz.Assert(false, "twin")
+	}
+	zz.Reach("end")
+}
+
+var _ = strings.Contains
